@@ -356,6 +356,126 @@ where
 }
 
 // ---------------------------------------------------------------------------
+// Histories on ONE reused StripedSequence + ONE reused StripedScores (C01 `reuse`)
+// ---------------------------------------------------------------------------
+
+#[derive(Clone, Copy, Debug, PartialEq, Eq)]
+pub enum HOp {
+    /// `stripe_into(seqs[k], &mut st)`
+    Stripe(usize),
+    /// `st.configure(&pssms[j])` only
+    Configure(usize),
+    /// `st.configure(&pssms[j]); score_into(&pssms[j], &st, &mut sc)`
+    Score(usize),
+    /// `st.configure(&pssms[j]); score_rows_into(&pssms[j], &st, 1..R, &mut sc)` (perturbs the buffer)
+    ScoreRows(usize),
+}
+
+/// What the LAST operation of a history left in the score buffer.
+#[derive(Clone, Debug)]
+pub struct HSnap {
+    pub seq: usize,
+    pub motif: usize,
+    pub full: bool,
+    pub first_row: usize,
+    pub seq_rows: usize,
+    pub rows: usize,
+    pub max_index: usize,
+    pub iter_len: usize,
+    pub unstriped: Vec<f32>,
+    pub cells: Vec<f32>,
+}
+
+fn history_generic<A, C, PT, PS>(pt: &PT, ps: &PS, seqs: &[Vec<A::Symbol>], pssms: &[ScoringMatrix<A>], hist: &[HOp]) -> Option<HSnap>
+where
+    A: Alphabet,
+    C: PositiveLength,
+    PT: Stripe<A, C>,
+    PS: Score<f32, A, C>,
+{
+    let mut st: StripedSequence<A, C> = pt.stripe(&seqs[0]);
+    let mut cur = 0usize;
+    let mut sc = StripedScores::<f32, C>::empty();
+    let mut last = None;
+    for &op in hist {
+        last = None;
+        match op {
+            HOp::Stripe(k) => {
+                pt.stripe_into(&seqs[k], &mut st);
+                cur = k;
+            }
+            HOp::Configure(j) => st.configure(&pssms[j]),
+            HOp::Score(j) | HOp::ScoreRows(j) => {
+                st.configure(&pssms[j]);
+                let seq_rows = st.matrix().rows() - st.wrap();
+                let full = matches!(op, HOp::Score(_));
+                let first_row = if full { 0 } else { 1.min(seq_rows) };
+                if full {
+                    ps.score_into(&pssms[j], &st, &mut sc);
+                } else {
+                    ps.score_rows_into(&pssms[j], &st, first_row..seq_rows, &mut sc);
+                }
+                let rows = sc.matrix().rows();
+                let mut cells = Vec::with_capacity(rows * C::USIZE);
+                for r in 0..rows {
+                    cells.extend_from_slice(&sc.matrix()[r]);
+                }
+                last = Some(HSnap {
+                    seq: cur,
+                    motif: j,
+                    full,
+                    first_row,
+                    seq_rows,
+                    rows,
+                    max_index: sc.max_index(),
+                    iter_len: if full { sc.iter().len() } else { 0 },
+                    unstriped: if full { sc.unstripe().to_vec() } else { Vec::new() },
+                    cells,
+                });
+            }
+        }
+    }
+    last
+}
+
+/// Run `hist` on fresh objects under `cfg`; the snapshot of the last operation if it scored.
+pub fn history_f32<A: Alphabet>(cfg: Cfg, seqs: &[Vec<A::Symbol>], pssms: &[ScoringMatrix<A>], hist: &[HOp]) -> Option<HSnap> {
+    let g = Pipeline::<A, Generic>::generic();
+    match cfg {
+        Cfg::GenU1 => history_generic::<A, U1, _, _>(&g, &g, seqs, pssms, hist),
+        Cfg::GenU2 => history_generic::<A, U2, _, _>(&g, &g, seqs, pssms, hist),
+        Cfg::GenU4 => history_generic::<A, U4, _, _>(&g, &g, seqs, pssms, hist),
+        Cfg::GenU16 => history_generic::<A, U16, _, _>(&g, &g, seqs, pssms, hist),
+        Cfg::GenU32 => history_generic::<A, U32, _, _>(&g, &g, seqs, pssms, hist),
+        Cfg::GenU64 => history_generic::<A, U64, _, _>(&g, &g, seqs, pssms, hist),
+        Cfg::SseU16 => {
+            let s = Pipeline::<A, Sse2>::sse2().unwrap();
+            history_generic::<A, U16, _, _>(&g, &s, seqs, pssms, hist)
+        }
+        Cfg::SseU32 => {
+            let s = Pipeline::<A, Sse2>::sse2().unwrap();
+            history_generic::<A, U32, _, _>(&g, &s, seqs, pssms, hist)
+        }
+        Cfg::SseU48 => {
+            let s = Pipeline::<A, Sse2>::sse2().unwrap();
+            history_generic::<A, U48, _, _>(&g, &s, seqs, pssms, hist)
+        }
+        Cfg::SseU64 => {
+            let s = Pipeline::<A, Sse2>::sse2().unwrap();
+            history_generic::<A, U64, _, _>(&g, &s, seqs, pssms, hist)
+        }
+        Cfg::AvxU32 => {
+            let s = Pipeline::<A, Avx2>::avx2().unwrap();
+            history_generic::<A, U32, _, _>(&s, &s, seqs, pssms, hist)
+        }
+        Cfg::DispGen | Cfg::DispSse | Cfg::DispAvx => with_arm(cfg.arm().unwrap(), || {
+            let d = Pipeline::<A, Dispatch>::dispatch();
+            history_generic::<A, U32, _, _>(&d, &d, seqs, pssms, hist)
+        }),
+    }
+}
+
+// ---------------------------------------------------------------------------
 // Striping
 // ---------------------------------------------------------------------------
 
